@@ -163,4 +163,5 @@ def run(tier, seed, procs):
                              {'faults': 'some', 'degenerate': False}) for i in range(hs)], procs)
     cols += drive.pool_map(drive.shard_enum_stale, [(MOD, 'story', i, 2 if quick else 3) for i in range(11)], procs)
     cols += drive.pool_map(drive.shard_enum_stale, [(MOD, 'item', i, 2 if quick else 3) for i in range(9)], procs)
+    cols += drive.pool_map(history.shard_returning, [MOD], 1)
     return drive.merge_all(PROP, cols)
